@@ -144,9 +144,10 @@ func (c *callEngine) Call(ctx context.Context, params ...uint64) ([]uint64, erro
 	return paramResultSlice[:c.numberOfResults], nil
 }
 
-func (c *callEngine) addFrame(builder wasmdebug.ErrorBuilder, addr uintptr) (def api.FunctionDefinition, listener experimental.FunctionListener) {
+// compiledModuleOfAddr returns the compiled module whose executable contains addr, or nil if unknown.
+func (c *callEngine) compiledModuleOfAddr(addr uintptr) (cm *compiledModule) {
 	eng := c.parent.parent.parent
-	cm := eng.compiledModuleOfAddr(addr)
+	cm = eng.compiledModuleOfAddr(addr)
 	if cm == nil {
 		// This case, the module might have been closed and deleted from the engine.
 		// We fall back to searching the imported modules that can be referenced from this callEngine.
@@ -166,6 +167,11 @@ func (c *callEngine) addFrame(builder wasmdebug.ErrorBuilder, addr uintptr) (def
 			}
 		}
 	}
+	return
+}
+
+func (c *callEngine) addFrame(builder wasmdebug.ErrorBuilder, addr uintptr) (def api.FunctionDefinition, listener experimental.FunctionListener) {
+	cm := c.compiledModuleOfAddr(addr)
 
 	if cm != nil {
 		index := cm.functionIndexOf(addr)
@@ -587,7 +593,7 @@ func (c *callEngine) stackIterator(onHostCall bool) experimental.StackIterator {
 type stackIterator struct {
 	retAddrs      []uintptr
 	retAddrCursor int
-	eng           *engine
+	c             *callEngine
 	pc            uint64
 
 	currentDef *wasm.FunctionDefinition
@@ -602,7 +608,7 @@ func (si *stackIterator) reset(c *callEngine, onHostCall bool) {
 	si.retAddrs = unwindStack(uintptr(unsafe.Pointer(c.execCtx.stackPointerBeforeGoCall)), c.execCtx.framePointerBeforeGoCall, c.stackTop, si.retAddrs)
 	si.retAddrs = si.retAddrs[:len(si.retAddrs)-1] // the last return addr is the trampoline, so we skip it.
 	si.retAddrCursor = 0
-	si.eng = c.parent.parent.parent
+	si.c = c
 }
 
 // Next implements the same method as documented on experimental.StackIterator.
@@ -612,7 +618,8 @@ func (si *stackIterator) Next() bool {
 	}
 
 	addr := si.retAddrs[si.retAddrCursor]
-	cm := si.eng.compiledModuleOfAddr(addr)
+	// Also finds a module that was deleted from the engine while its code is still running.
+	cm := si.c.compiledModuleOfAddr(addr)
 	if cm != nil {
 		index := cm.functionIndexOf(addr)
 		def := cm.module.FunctionDefinition(cm.module.ImportFunctionCount + index)
@@ -634,13 +641,13 @@ func (si *stackIterator) ProgramCounter() experimental.ProgramCounter {
 // The returned value describes the current frame also after the next call to Next: callers
 // such as experimental.MultiFunctionListenerFactory keep it.
 func (si *stackIterator) Function() experimental.InternalFunction {
-	return internalFunction{def: si.currentDef, eng: si.eng}
+	return internalFunction{def: si.currentDef, c: si.c}
 }
 
 // internalFunction implements experimental.InternalFunction.
 type internalFunction struct {
 	def api.FunctionDefinition
-	eng *engine
+	c   *callEngine
 }
 
 // Definition implements the same method as documented on experimental.InternalFunction.
@@ -651,7 +658,10 @@ func (f internalFunction) Definition() api.FunctionDefinition {
 // SourceOffsetForPC implements the same method as documented on experimental.InternalFunction.
 func (f internalFunction) SourceOffsetForPC(pc experimental.ProgramCounter) uint64 {
 	upc := uintptr(pc)
-	cm := f.eng.compiledModuleOfAddr(upc)
+	cm := f.c.compiledModuleOfAddr(upc)
+	if cm == nil {
+		return 0
+	}
 	return cm.getSourceOffset(upc)
 }
 
